@@ -50,7 +50,11 @@ class runtime_error(FeedbackResponse):
         report = kwargs.get('report', MAIN_REPORT)
         exception_name = get_exception_name(exception)
         exception_name_proper = add_indefinite_article(exception_name)
-        exception_message = str(exception)
+        try:
+            exception_message = str(exception)
+        except Exception:
+            # Student-defined exceptions can have a broken __str__; still report the failure
+            exception_message = ""
         exception_message = exception_message[0].upper() + exception_message[1:] if exception_message else ""
         if type(exception) not in EXCEPTION_FF_MAP:
             title = exception_name
